@@ -66,7 +66,7 @@ CLAIMED.update({
  "C14": ("compile-fail witnesses with compiling twins (rustc, against the .rmeta of the current tree) + inventory / variance / unsafe-impl queries over the type-checked program + single-visit check on the interpreted *_mut steps",
          "43 aliasing / thread-safety client programs are rejected with the expected error code on the marked line (twins compile), 4 intended patterns compile; every type holding &Table from which get_mut is reachable has its Send and Clone witnesses, is built only from exclusive receivers, is invariant in its value types; the only unsafe auto-trait impls are Table's with P,T: Send/Sync; get_mut is applied only to the popped entry's own index per table.",
          "trusted: rustc borrow checker / auto traits; assumes C15 for single visit; the schedule clause (concurrent = sequential) and aliasing-model UB are not decided", "DESIGN.md §6 C14, Appendix C"),
- "C17": ("site rules over the typed tree of prefix.rs / to_right (guarded shifts, arithmetic and narrowing casts justified by operand types, shape of the eq / zero / contains defaults) + abstract interpretation of longest_common_prefix / from_repr_len with foreign arithmetic as uninterpreted functions and min / comparisons as ordering facts",
+ "C17": ("abstract interpretation of every function of the prefix module and of the branch-side function with foreign arithmetic as uninterpreted functions and min / comparisons as ordering facts; trace of every evaluated shift / arithmetic operation / integer cast, covering the syntactic inventory of such sites",
          "Decided: the boundary-safety clause ('no operation panics or overflows for bit indices 0..=255 and lengths 0..=width'); the LENGTH clause of longest_common_prefix for the generic definition and every override (on every path the constructed length is <= both lengths, <= leading_zeros(xor of the two representations) and equal to one of them, by order closure of the path's own facts); from_repr_len passes its length (tuple type: also its representation) through. NOT decided: reflexivity / antisymmetry / transitivity of contains, the representation part, symmetry and coverage of longest_common_prefix, is_bit_set = i-th bit, from_repr_len masking, agreement of the per-type overrides with the generic definitions — bit-vector identities out of reach for this technique (seeded change C17-r4a is consequently not detected).",
          "assumes shipped representations <= 128 bits and foreign constructors accepting len <= width", "DESIGN.md §6 C17, §9"),
  "C18": ("who-may-call query on Prefix::repr/from_repr_len and P-bounds + " + AI + " for prefix writes and reported prefixes",
